@@ -519,3 +519,85 @@ def r3_delta_applied(ctx):
 
 
 RULES += [r2_edge_closure, r3_delta_applied]
+
+
+def _flat_args(e, depth=0):
+    """leaf expressions of nested brace / pair constructions"""
+    e = strip_move(e)
+    if isinstance(e, dict) and e.get("k") in ("ilist", "ctor") and e.get("a") and depth < 4:
+        out = []
+        for a in e["a"]:
+            out += _flat_args(a, depth + 1)
+        return out
+    return [strip(e)]
+
+
+def r4_relaxation(ctx):
+    ctx.rule("C12.r4", "closure relaxations are self-consistent: in `if (g.lookup(s,d,w)) { if (w.get() <= X) continue; g.set_edge(s,Y,d) } "
+             "else add (s,d,Z)` the weight compared is the weight written (X = Y = Z) and the end points agree", floor=3)
+    n_sites = 0
+    for f, cpk, gf in GRAPH_DOMAINS[:2]:
+        for fn in ctx.db.fns(f, pk=cpk + "::close_over_edge"):
+            body = fn["body"]
+            d = local_decls(body)
+            for n in walk(body):
+                if n.get("k") != "if":
+                    continue
+                c = strip(n.get("c"))
+                if not (is_call(c, name="lookup") and len(c.get("a", [])) == 3):
+                    continue
+                S, D, W = strip(c["a"][0]), strip(c["a"][1]), strip(c["a"][2])
+                then = n.get("t")
+                inner = [x for x in walk(then) if x.get("k") == "if" and any(y.get("k") == "continue" for y in walk(x.get("t")))]
+                sets = [x for x in walk(then) if is_call(x, name=("set_edge", "update_edge")) and len(x.get("a", [])) >= 3]
+                if len(inner) != 1 or len(sets) != 1:
+                    continue
+                n_sites += 1
+                pp = cmp_parts(inner[0].get("c"))
+                wref = lambda e: is_call(strip(e), name="get") and same_expr(strip(strip(e).get("o")), W)
+                X = None
+                okdir = False
+                if pp:
+                    op, a, b = pp
+                    if wref(a) and op in ("<=", "<"):
+                        X, okdir = strip(b), True
+                    elif wref(b) and op in (">=", ">"):
+                        X, okdir = strip(a), True
+                    elif wref(a) or wref(b):
+                        X = strip(b) if wref(a) else strip(a)
+                st = sets[0]
+                Y = strip(st["a"][1])
+                problems = []
+                if X is None:
+                    ctx.undecided("close_over_edge: cannot read the comparison guarding `%s`" % src(st)[:50], fn, inner[0])
+                    continue
+                if not okdir:
+                    problems.append("the existing weight is kept when it is LOOSER (`%s`)" % src(inner[0].get("c"))[:40])
+                if not same_expr(X, Y):
+                    problems.append("the existing weight is compared with `%s` but `%s` is written" % (src(X), src(Y)))
+                if not (same_expr(strip(st["a"][0]), S) and same_expr(strip(st["a"][2]), D)):
+                    problems.append("lookup(%s,%s) but set_edge(%s,.,%s)" % (src(S), src(D), src(st["a"][0]), src(st["a"][2])))
+                if "e" in n:
+                    adds = [x for x in walk(n["e"]) if is_call(x, name=("add_edge", "push_back", "emplace_back"))]
+                    for ad in adds:
+                        if callee(ad)["name"] == "add_edge" and len(ad.get("a", [])) >= 3:
+                            leaves = [strip(ad["a"][0]), strip(ad["a"][2]), strip(ad["a"][1])]
+                        else:
+                            leaves = _flat_args(ad["a"][0]) if ad.get("a") else []
+                        if len(leaves) != 3:
+                            continue
+                        if not same_expr(leaves[2], Y):
+                            problems.append("the new edge is added with `%s` but the existing edge is set to `%s`" % (src(leaves[2]), src(Y)))
+                        if not (same_expr(leaves[0], S) and same_expr(leaves[1], D)):
+                            problems.append("lookup(%s,%s) but the new edge is (%s,%s)" % (src(S), src(D), src(leaves[0]), src(leaves[1])))
+                if problems:
+                    ctx.bad("%s::close_over_edge, relaxation of %s -> %s: %s; the stored bound is then not the shortest path and implied "
+                            "constraints are no longer entailed" % (cpk.split("::")[-1], src(S), src(D), "; ".join(problems)), fn, st,
+                            sig="relaxation:%s->%s:%s" % (src(S), src(D), src(Y)))
+                else:
+                    ctx.ok("%s -> %s relaxed with %s" % (src(S), src(D), src(Y)), fn, st)
+    if n_sites == 0:
+        ctx.fail("rule C12.r4: no relaxation site found")
+
+
+RULES += [r4_relaxation]
